@@ -35,6 +35,7 @@ func facts() map[string]any {
 		"shape_corrupt_tombstones_clear_trust":      false,
 		"shape_both_writes_failed_clears_trust":     false,
 		"shape_unreadable_tombstones_use_empty_map": false,
+		"shape_unreadable_tombstones_clear_trust":   false,
 		"shape_prefetch_publish_gated_on_prior":     false,
 	}
 	repo := os.Getenv("VERIF_REPO")
@@ -185,32 +186,55 @@ func facts() map[string]any {
 			}
 		}
 	}
-	// tombstone read error handling
+	// tombstone read error handling: two recognised shapes of `if err != nil {…}` after readTombstones
+	//   A (current tree): a nested `if errors.Is(err, errCorruptTombstones)` clears r.rootKeys and returns;
+	//      every other error falls through to `tombstones = make(Tombstones)`
+	//   B (fail-closed variant): the body clears r.rootKeys and returns for every error
 	for i, s := range fn.Body.List {
-		if !assignCall("tombstones", "readTombstones")(s) {
-			as, ok := s.(*ast.AssignStmt)
-			if !ok || len(as.Rhs) != 1 {
-				continue
-			}
-			c, ok := as.Rhs[0].(*ast.CallExpr)
-			if !ok || src(c.Fun) != "readTombstones" {
-				continue
-			}
+		as, ok := s.(*ast.AssignStmt)
+		if !ok || len(as.Rhs) != 1 {
+			continue
 		}
-		if i+1 < len(fn.Body.List) {
-			if is, ok := fn.Body.List[i+1].(*ast.IfStmt); ok && src(is.Cond) == "err != nil" {
-				for _, inner := range is.Body.List {
-					if ii, ok := inner.(*ast.IfStmt); ok && strings.Contains(src(ii.Cond), "errCorruptTombstones") {
-						b := src(ii.Body)
-						if strings.Contains(b, "r.rootKeys = nil") && strings.Contains(b, "return") {
-							out["shape_corrupt_tombstones_clear_trust"] = true
-						}
-					}
-					if as, ok := inner.(*ast.AssignStmt); ok && src(as) == "tombstones = make(Tombstones)" {
-						out["shape_unreadable_tombstones_use_empty_map"] = true
+		c, ok := as.Rhs[0].(*ast.CallExpr)
+		if !ok || src(c.Fun) != "readTombstones" {
+			continue
+		}
+		if i+1 >= len(fn.Body.List) {
+			continue
+		}
+		is, ok := fn.Body.List[i+1].(*ast.IfStmt)
+		if !ok || src(is.Cond) != "err != nil" {
+			continue
+		}
+		nestedClear, emptyMap, topClear, topReturn := false, false, false, false
+		for _, inner := range is.Body.List {
+			switch x := inner.(type) {
+			case *ast.IfStmt:
+				if strings.Contains(src(x.Cond), "errCorruptTombstones") && !strings.Contains(src(x.Cond), "!") {
+					b := src(x.Body)
+					if strings.Contains(b, "r.rootKeys = nil") && strings.Contains(b, "return") {
+						nestedClear = true
 					}
 				}
+			case *ast.AssignStmt:
+				if src(x) == "tombstones = make(Tombstones)" {
+					emptyMap = true
+				}
+				if src(x) == "r.rootKeys = nil" {
+					topClear = true
+				}
+			case *ast.ReturnStmt:
+				topReturn = true
 			}
+		}
+		assignsTomb := strings.Contains(src(is.Body), "tombstones =") || strings.Contains(src(is.Body), "tombstones, ")
+		switch {
+		case nestedClear && emptyMap && !topReturn:
+			out["shape_corrupt_tombstones_clear_trust"] = true
+			out["shape_unreadable_tombstones_use_empty_map"] = true
+		case topClear && topReturn && !assignsTomb:
+			out["shape_corrupt_tombstones_clear_trust"] = true
+			out["shape_unreadable_tombstones_clear_trust"] = true
 		}
 	}
 	// pre-fetch publication
